@@ -34,7 +34,7 @@ RULE = (
 )
 ASSUMPTIONS = [
     "exception classes and extractor behaviours from a fixed alphabet",
-    "placement of the eliot:traceback written for a raising extractor is not constrained (only that exactly one is logged per failing end)",
+    "a raising extractor may be reported with an eliot:traceback message: at most one per raising extractor call is accepted, none is accepted too; its placement is not constrained",
 ]
 
 
@@ -245,8 +245,8 @@ def run_history(events):
                 viol.append(("failed-end-fields:after-later-registration", {"events": events, "got": got, "want": fields}))
                 break
     ntb = sum(1 for m in msgs if m.get("message_type") == "eliot:traceback")
-    if ntb != sum(1 for e in expected if e[2]):
-        viol.append(("traceback-count-for-raising-extractor", {"events": events, "got": ntb}))
+    if ntb > sum(1 for e in expected if e[2]):
+        viol.append(("more-tracebacks-than-raising-extractors", {"events": events, "got": ntb}))
     return Result(outcome=[[m.get("action_status"), sorted(k for k in m if k.startswith("from_"))] for m in ends],
                   nontrivial=len(events) > 1, violations=viol[:3])
 
@@ -404,8 +404,10 @@ def run_case(case):
             if got_end != want:
                 bad("success-end-fields", level=i, got=got_end, want=want)
     tbs = [m for m in msgs if m.get("message_type") == "eliot:traceback"]
-    if len(tbs) != n_tb:
-        bad("traceback-count-for-raising-extractor", got=len(tbs), want=n_tb)
+    if len(tbs) > n_tb:
+        # at most one report per extractor that raised (that a report is written at all is the
+        # mechanism, not the property: fewer is not a violation)
+        bad("more-tracebacks-than-raising-extractors", got=len(tbs), at_most=n_tb)
     others = [m for m in msgs if "action_type" not in m and m.get("message_type") != "eliot:traceback"]
     if others:
         bad("unexpected-messages", got=[m.get("message_type") for m in others])
